@@ -161,3 +161,7 @@ func vMutexFree(mu *sync.Mutex) bool {
 }
 
 func vFmtArg(k int) uint64 { panic(vSkip{"vFmtArg has no native counterpart"}) }
+
+// natively the two threads run one after the other (interleavings cannot be forced)
+func vPar(f, g func()) { f(); g() }
+func vNoBlock(on bool) {}
